@@ -6,6 +6,7 @@ from absval import PtrVal, IntVal, mk_const, NULL
 from lin import Lin
 from c01 import trace_const
 
+from irlib import keep_all_but_new_helpers
 DIR = 'compat/libc/string'
 
 
@@ -285,38 +286,67 @@ def ascending_rule(rep, mod):
         raise AnalysisBroken('memcpy: copy cursors not recognised (%d)' % n)
 
 
-def sibling_rule(rep, mods):
-    """R-SIBLING: case-sensitive and case-insensitive twins share one skeleton (loops, cursor steps, exits, result)"""
-    def features(f):
+def cursor_step_rule(rep, mods):
+    """R-CURSORSTEP: in the scanning/comparing functions every loop-carried cursor over a string (a pointer phi, or an
+    integer phi used as an index into a string) advances by exactly one element per iteration.  For strstr/strcasestr
+    this is the clause "after a failed partial match at position i the search resumes at i + 1" (resuming at the
+    mismatch position skips occurrences that overlap the partial match); for the compare/convert functions it is
+    "both strings are walked in lockstep, no character is skipped".  Decided per function on its own IR (no comparison
+    of one twin's shape with the other's), independent of pointer/index form and of the loop statement used."""
+    def steps(f):
         out = []
-        for L in sorted(f.loops, key=lambda l: l['header'].idx):
-            steps = []
-            for ph in [i for i in L['header'].insts if i.op == 'phi' and i.ty.get('k') == 'ptr']:
+        for L in f.loops:
+            for ph in [i for i in L['header'].insts if i.op == 'phi']:
+                is_ptr = ph.ty.get('k') == 'ptr'
+                is_idx = False
+                if not is_ptr and ph.ty.get('k') == 'int':
+                    # an integer phi that (possibly extended) indexes a getelementptr
+                    work, seen = [ph], set()
+                    while work and not is_idx:
+                        x = work.pop()
+                        if x.id in seen:
+                            continue
+                        seen.add(x.id)
+                        for u in f.users(x):
+                            if u.op in ('zext', 'sext', 'trunc'):
+                                work.append(u)
+                            elif u.op == 'getelementptr' and any(o.k == 'inst' and o.id == x.id for o in u.ops[1:]):
+                                is_idx = True
+                if not (is_ptr or is_idx):
+                    continue
                 for (bb, v) in ph.incoming:
-                    if f.bmap[bb] in L['blocks']:
+                    if f.bmap[bb] not in L['blocks']:
+                        continue
+                    if is_ptr:
                         r, off = trace_const(f, v)
-                        if r.k == 'inst' and r.id == ph.id:
-                            steps.append('+%d' % off)
-                        elif r.k == 'inst' and f.insts[r.id].op == 'phi':
-                            steps.append('other-cursor%+d' % off)
-                        else:
-                            steps.append('recomputed')
-            out.append(('loop', tuple(sorted(steps)), len(L['exits'])))
-        rets = []
-        for r in f.returns():
-            if r.ops:
-                v = r.ops[0]
-                i = f.inst_of(v)
-                rets.append(v.k if i is None else i.op)
-        out.append(('returns', tuple(sorted(rets))))
+                        st = off if (r.k == 'inst' and r.id == ph.id) else None
+                    else:
+                        st = None
+                        g = f.inst_of(v)
+                        if g is not None and g.op == 'add' and any(o.k == 'ci' for o in g.ops):
+                            o2 = [o for o in g.ops if o.k != 'ci']
+                            if o2 and o2[0].k == 'inst' and o2[0].id == ph.id:
+                                st = [o for o in g.ops if o.k == 'ci'][0].ival
+                        elif v.k == 'inst' and v.id == ph.id:
+                            st = 0
+                    out.append((L, ph, st))
         return out
-    for a, b in (('strstr', 'strcasestr'), ('strcmp', 'strcasecmp'), ('strncmp', 'strncasecmp'), ('strlwr', 'strupr')):
-        fa, fb = mods[a].fn(a), mods[b].fn(b)
-        xa, xb = features(fa), features(fb)
-        ok = xa == xb
-        rep.inst('R-SIBLING', a + '/' + b, 'same-skeleton', ok, '%s:%d' % (fa.file, fa.line),
-                 None if ok else 'the twins %s and %s no longer share their loop/cursor structure: %s vs %s'
-                 % (a, b, xa, xb), fact={'features': [str(x) for x in xa]})
+    for name in ('strstr', 'strcasestr', 'strcmp', 'strcasecmp', 'strncmp', 'strncasecmp', 'strlwr', 'strupr'):
+        f = mods[name].fn(name)
+        ss = steps(f)
+        if not ss:
+            raise AnalysisBroken('%s: no loop-carried string cursor found (anchor changed)' % name)
+        bad = [(L, ph, st) for (L, ph, st) in ss if st != 1]
+        ok = not bad
+        detail = None
+        if bad:
+            L, ph, st = bad[0]
+            detail = ('a string cursor of %s (%s) is %s on a loop back edge; it must advance by exactly one: %s'
+                      % (name, ph.name or 'phi', 'advanced by %d' % st if st is not None else 're-assigned from another value',
+                         'resuming the search anywhere but at i + 1 skips overlapping occurrences'
+                         if 'str' in name and 'st' in name[3:] else 'the strings are not walked in lockstep'))
+        rep.inst('R-CURSORSTEP', name, 'every-string-cursor-advances-by-one', ok,
+                 (bad[0][1].where() if bad else '%s:%d' % (f.file, f.line)), detail, fact={'cursors': len(ss)})
 
 
 def movedir(rep, mod):
@@ -379,29 +409,42 @@ def movedir(rep, mod):
         else:
             detail = 'the overlapping copy loop does not start at src+n / dst+n and step down by one with pre-decrement'
     rep.inst('R-MEMMOVE', 'memmove', 'overlapping-copy-runs-from-the-far-end', ok_loop, where, None if ok_loop else detail)
-    # the backward loop is only entered when src < dst && dst < src + n
+    # the backward loop is only entered when src < dst: every path from the entry to the loop uses a CFG edge on which a
+    # comparison of the two pointer parameters implies src < dst (whatever form the test is written in: src < dst,
+    # !(src >= dst), dst > src, part of a && / || chain, early return for the other case ...)
     guard_ok = False
+    back_headers = []
+    for L in f.loops:
+        pphis = [i for i in L['header'].insts if i.op == 'phi' and i.ty.get('k') == 'ptr']
+        down = 0
+        for ph in pphis:
+            for (bb, v) in ph.incoming:
+                g = f.inst_of(v)
+                if f.bmap[bb] in L['blocks'] and g is not None and g.op == 'getelementptr' and g.ops[0].k == 'inst' \
+                        and g.ops[0].id == ph.id and len(g.d['gep']['steps']) == 1 \
+                        and g.d['gep']['steps'][0]['v'].get('k') == 'ci' and g.d['gep']['steps'][0]['v']['v'] < 0:
+                    down += 1
+        if down:
+            back_headers.append(L['header'])
+    edges = []
     for c in f.all_insts():
-        if c.op == 'icmp' and c.pred in ('ult', 'ugt'):
+        if c.op == 'icmp' and c.pred in ('ult', 'ugt', 'uge', 'ule'):
             r0, o0 = trace_const(f, c.ops[0])
             r1, o1 = trace_const(f, c.ops[1])
-            a, b_ = (r0, r1) if c.pred == 'ult' else (r1, r0)
-            if a.k == 'arg' and b_.k == 'arg' and a.argno == 1 and b_.argno == 0 and o0 == 0 and o1 == 0:
-                # feeds (possibly through and/select of the && chain) a conditional branch
-                work = [c]
-                seen = set()
-                while work:
-                    x = work.pop()
-                    if x.id in seen:
-                        continue
-                    seen.add(x.id)
-                    for u in f.users(x):
-                        if u.op == 'br':
-                            guard_ok = True
-                        elif u.op in ('and', 'select', 'or', 'xor', 'zext', 'phi'):
-                            work.append(u)
+            if not (r0.k == 'arg' and r1.k == 'arg' and o0 == 0 and o1 == 0 and {r0.argno, r1.argno} == {0, 1}):
+                continue
+            src_first = r0.argno == 1
+            # outcome of the comparison under which src < dst holds
+            want = {('ult', True): True, ('ugt', False): True, ('uge', True): False, ('ule', False): False}.get(
+                (c.pred, src_first))
+            if want is None:
+                continue        # src > dst / src <= dst / dst >= src ...: says nothing about src < dst on either edge
+            edges += f.edges_implying(c, want)
+    if back_headers and edges:
+        guard_ok = all(f.only_through_edges(edges, h) for h in back_headers)
     rep.inst('R-MEMMOVE', 'memmove', 'backward-copy-guarded-by-src<dst', guard_ok, where,
-             None if guard_ok else 'no test src < dst guards the backward copy')
+             None if guard_ok else 'the backward (descending) copy loop can be reached on a path on which src < dst was not '
+             'established: for dst below src an overlapping descending copy overwrites bytes before they are read')
 
 
 def wide_access_rule(rep, mod):
@@ -484,7 +527,8 @@ def run(rep, repo, tier):
         src = os.path.join(repo, DIR, n + '.c')
         if not os.path.exists(src):
             raise AnalysisBroken('%s/%s.c not found (anchor vanished)' % (DIR, n))
-        jobs.append({'src': src, 'flags': LIBC_FLAGS, 'lang': 'c'})
+        # helper functions that a refactoring may introduce (static, not anchored by any rule) are folded into their callers
+        jobs.append({'src': src, 'flags': LIBC_FLAGS, 'lang': 'c', 'inline': keep_all_but_new_helpers()})
     mods = dict(zip(names, compile_many(jobs, repo)))
     rep.units += ['%s/%s.c' % (DIR, n) for n in names]
     sp = specs()
@@ -510,12 +554,12 @@ def run(rep, repo, tier):
     movedir(rep, mods['memmove'])
     wide_access_rule(rep, mods['memcpy'])
     ascending_rule(rep, mods['memcpy'])
-    sibling_rule(rep, mods)
+    cursor_step_rule(rep, mods)
     uchar_rule(rep, mods)
     rep.floor('R-LIBC:bounds', 40)
     rep.floor('R-LIBC:post', 30)
     rep.floor('R-UCHAR', 3)
     rep.floor('R-WORDALIGN', 2)
     rep.floor('R-MEMMOVE', 3)
-    rep.floor('R-SIBLING', 4)
+    rep.floor('R-CURSORSTEP', 8)
     rep.floor('R-MEMCPY-ASCENDING', 1)
